@@ -170,6 +170,27 @@ func runProof(eng *Engine, prop string, tier string, kfs []KnownFinding, replayD
 	notes := map[string]bool{}
 	for _, r := range results {
 		if r.Undecided != "" {
+			// The contract no longer binds to the code (renamed variable, construct outside the subset): nothing is
+			// proved about this function. That alone is not a violation; it becomes one only if a probe of the real
+			// code observes a failing input for this function.
+			fn := r.Name
+			if i := strings.LastIndex(fn, "::"); i >= 0 {
+				fn = fn[i+2:]
+			}
+			o := &Obligation{Name: fn + "/contract-binds", Kind: "undecided", Func: fn, Tags: []string{prop},
+				Src: "the contract of " + fn + " applies to the current code", Output: "undecided: " + r.Undecided, Status: "undecided"}
+			if ce := findCounterexample(eng, o, ""); ce != nil && ce.Confirmed {
+				if k := matchKnown(kfs, prop, o.Name); k != nil {
+					pp.Known = append(pp.Known, o.Name)
+					lines = append(lines, fmt.Sprintf("KNOWN-FINDING: property=%s %s [%s]", prop, k.What, o.Name))
+					continue
+				}
+				pp.Obligations++
+				pp.Violations++
+				pp.Failed = append(pp.Failed, map[string]string{"name": o.Name, "pos": "", "clause": o.Src, "solver_output": o.Output})
+				lines = append(lines, writeReplay(eng, replayDir, prop, o, ""))
+				continue
+			}
 			pp.Undecided = append(pp.Undecided, r.Name+": "+r.Undecided)
 			lines = append(lines, fmt.Sprintf("UNDECIDED property=%s function=%s reason=%s", prop, r.Name, r.Undecided))
 			continue
